@@ -135,7 +135,8 @@ pub fn real_bind_text(vars: &[(String, String)], text: &str) -> String {
 // names with Unicode white space that is NOT a name-ending character (NBSP, form feed, U+3000,
 // U+2028), the EMPTY name (`${}` / `%{}` - definable through set_by_name or by the embedder) and
 // names made of syntax characters are legal too
-const NAMES: [&str; 18] = ["x", "y", "long_name", "a.b", "é", "n1", "PATH", "HOME", "a$b", "rate%", "", "first\u{a0}name", "a\u{c}b", "\u{3000}w", "u\u{2028}", "a:b", "#h", "{"];
+// numeric names in several spellings (`1`, `01`, `+1`, `007`, `7`): a name is a text, `${01}` is not `${1}`
+const NAMES: [&str; 23] = ["x", "y", "long_name", "a.b", "é", "n1", "PATH", "HOME", "a$b", "rate%", "", "first\u{a0}name", "a\u{c}b", "\u{3000}w", "u\u{2028}", "a:b", "#h", "{", "1", "01", "+1", "007", "7"];
 
 fn lit(rng: &mut Rng) -> String {
     let n = 1 + rng.below(5);
